@@ -76,6 +76,16 @@ RAW_FILES: List[Tuple[str, bytes]] = [
     ('README.txt', b'not python\n'),
     ('notpy.pyi', b'x: int\n'),
 ]
+# encoding declarations (PEP 263) in every spelling, naming text encodings, codecs that exist but are not text encodings,
+# and names that do not exist; with bodies that do or do not decode under them
+_CODECS = ['rot13', 'rot_13', 'hex', 'base64', 'zlib', 'bz2', 'uu', 'quopri', 'undefined', 'punycode', 'idna', 'utf-16', 'utf-32', 'utf-7', 'utf-8-sig', 'cp1252', 'cp037', 'shift_jis', 'mbcs',
+           'unicode_escape', 'raw_unicode_escape', 'charmap', 'ascii', 'nonexistent', 'utf8', 'UTF-8', 'latin_1', 'iso-8859-15', 'big5', 'oem', '']
+for _i, _c in enumerate(_CODECS):
+    _decl = [b'# -*- coding: %s -*-\n', b'# vim: set fileencoding=%s :\n', b'#!/usr/bin/python\n# coding=%s\n', b'\n# coding: %s\n'][_i % 4] % _c.encode()
+    RAW_FILES.append(('enc%d.py' % _i, _decl + [b'"""doc"""\nclass E: pass\n', b'x = "caf\xe9 \xff"\n', b'"""\xc3\xa9"""\ndef f(): pass\n'][_i % 3]))
+RAW_FILES.append(('bom_cookie.py', b'\xef\xbb\xbf# coding: latin-1\nx = 1\n'))
+RAW_FILES.append(('longline.py', b'x = "' + b'a' * 200000 + b'"\n'))
+RAW_FILES.append(('bigint.py', b'X = 0x' + b'F' * 5000 + b'\nY = ' + b'9' * 5000 + b'\ndef f(a=0b' + b'1' * 20000 + b'): pass\n'))
 
 PRIVACY_PATTERNS = ['**.C', '**.Base', '**.f', '**.m', '**.x', '**._p', '**.D.*', 'pkg.dep', 'pkg.mod', 'pkg.sub', 'pkg.sub.**', 'pkg.mod.*', 'pkg.dep.Base', 'pkg.dep.Base.m',
                     'dep', 'dep.Base', 'mod.C', 'pkg', '**.I', '**.__init__', '**.E', '*.mod.C.f', '**.UPPER', 'pkg.sib', '**.g', '**.[CD]', 'pkg.*.?']
@@ -122,10 +132,16 @@ ODD_ROOT_NAMES = ['index', 'classIndex', 'moduleIndex', 'nameIndex', 'undoccedSu
                   'bootstrap', '__main__', 'setup', 'Index', 'INDEX', 'mod', 'dep', 'fonts', 'extra', 'sidebartoggle', 'all', 'test', '_private', '__dunder__', 'é']
 
 
-def st_tree(clean: bool = False):
+RESERVED_PAGE_NAMES = ['index', 'classIndex', 'moduleIndex', 'nameIndex', 'undoccedSummary']
+
+
+def st_tree(clean: bool = False, reserved: Optional[bool] = None):
     """clean=True: only grammar-generated (parsable) modules, no raw byte files, no size class: used by the
     rendering checks (C10-C12, C17, C18) which need projects, not robustness inputs."""
     from hypothesis import strategies as st
+    if reserved is None:
+        reserved = not clean
+    odd_names = [n for n in ODD_ROOT_NAMES if reserved or n not in RESERVED_PAGE_NAMES]
     if clean:
         src = pysource.modules()
     else:
@@ -141,12 +157,12 @@ def st_tree(clean: bool = False):
         roots: List[str]
         if layout == 'oddnames':
             # root modules / packages whose names coincide with files pydoctor writes itself, or are otherwise special
-            names = draw(st.lists(st.sampled_from(ODD_ROOT_NAMES), min_size=1, max_size=3, unique=True))
+            names = draw(st.lists(st.sampled_from(odd_names), min_size=1, max_size=3, unique=True))
             roots = []
             for nm in names:
                 if draw(st.integers(0, 3)) == 0:
                     files[nm + '/__init__.py'] = draw(src)
-                    files[nm + '/' + draw(st.sampled_from(ODD_ROOT_NAMES)) + '.py'] = draw(src)
+                    files[nm + '/' + draw(st.sampled_from(odd_names)) + '.py'] = draw(src)
                     roots.append(nm)
                 else:
                     files[nm + '.py'] = draw(src)
